@@ -625,7 +625,10 @@ static void mode_addm(int lo, int hi, int step, int kmax, int ymax)
 			if (!rep_applies(R, r)) continue;
 			struct dt_d_s v = mkval(R, r, &ok);
 			if (!ok) continue;
-			for (int k = -kmax; k <= kmax; k++) {
+			/* beyond the window: counts that are whole multiples of the weekday cycles (28 y, 400 y) and of a century */
+			static const int MX[] = {336, 672, 1200, 2400, 4800, 337, 1199};
+			for (int ki = -kmax; ki <= kmax + 2 * (int)(sizeof(MX) / sizeof(*MX)); ki++) {
+				int k = ki <= kmax ? ki : ((ki - kmax) & 1 ? 1 : -1) * MX[(ki - kmax - 1) / 2];
 				static struct mkey *km[NREP], *kq[NREP], *kc[NREP];
 				int e = expect_addm(R, r, k);
 				if (e < LDN_1601 || e > LDN_LAST) continue;
@@ -661,7 +664,9 @@ static void mode_addm(int lo, int hi, int step, int kmax, int ymax)
 			if (!rep_applies(R, r)) continue;
 			struct dt_d_s v = mkval(R, r, &ok);
 			if (!ok) continue;
-			for (int k = -ymax; k <= ymax; k++) {
+			static const int YX[] = {28, 56, 84, 100, 112, 200, 400, 800, 19, 99};
+			for (int ki = -ymax; ki <= ymax + 2 * (int)(sizeof(YX) / sizeof(*YX)); ki++) {
+				int k = ki <= ymax ? ki : ((ki - ymax) & 1 ? 1 : -1) * YX[(ki - ymax - 1) / 2];
 				static struct mkey *ky[NREP], *kc[NREP];
 				int e = expect_addy(R, r, k);
 				if (e < LDN_1601 || e > LDN_LAST) continue;
